@@ -52,6 +52,8 @@ type ToBoltListener struct {
 	stacks            *Stack
 	currentStack      *Stack
 	err               error
+	// grouped remembers and/or nodes that were written inside explicit parentheses
+	grouped map[*BooleanLogicExprNode]bool
 }
 
 func (stack *Stack) push(val interface{}) {
@@ -432,6 +434,16 @@ func (bl *ToBoltListener) ExitOrExpr(c *zitiql.OrExprContext) {
 	}
 }
 
+func (bl *ToBoltListener) ExitGroup(c *zitiql.GroupContext) {
+	bl.printDebug(c)
+	if node, ok := bl.peekStack().(*BooleanLogicExprNode); ok {
+		if bl.grouped == nil {
+			bl.grouped = map[*BooleanLogicExprNode]bool{}
+		}
+		bl.grouped[node] = true
+	}
+}
+
 func (bl *ToBoltListener) ExitAndExpr(c *zitiql.AndExprContext) {
 	bl.printDebug(c)
 
@@ -439,6 +451,14 @@ func (bl *ToBoltListener) ExitAndExpr(c *zitiql.AndExprContext) {
 	left := bl.popNode()
 
 	if !bl.HasError() {
+		// The generated parser hands AND everything up to the end of the parenthesis level as its right
+		// operand, so `a and b or c` arrives here as a and (b or c). Unless that OR was written in
+		// parentheses, give AND its precedence back: (a and b) or c.
+		if or, ok := right.(*BooleanLogicExprNode); ok && or.op == OrOp && !bl.grouped[or] {
+			left = &BooleanLogicExprNode{left: left, right: or.left, op: AndOp}
+			bl.pushStack(&BooleanLogicExprNode{left: left, right: or.right, op: OrOp})
+			return
+		}
 		bl.pushStack(&BooleanLogicExprNode{left: left, right: right, op: AndOp})
 	}
 }
